@@ -449,3 +449,21 @@ PROPS["C19"]["thorough"]["floor_evaluations"] = 1500000
 for _id in PROPS:
     if PROPS[_id]["thorough"].get("fuzz_s"):
         PROPS[_id]["thorough"]["fuzz_s"] = 150
+
+# ---- evidence texts: what the generators gained during the seeded campaign (appended to the rules above)
+PROPS["C02"]["rule"] += "; std::ostream also with formatting state set (field width, fill, hex/showbase/uppercase/boolalpha, left) and through operator<<; row num01 (JsonFloat = float)"
+PROPS["C03"]["rule"] += "; 1 in 12 generated documents is wide (up to 260 nodes); aftermath: the same input is deserialized a second time into the same document (same code and value), then the document is cleared and reused; a raw-bytes branch (libFuzzer: the repository's seed corpora) feeds the bytes as they are"
+PROPS["C04"]["rule"] = PROPS["C04"]["rule"].replace("removal by index/key/iterator,", "removal by index/key/iterator/variant key, writes through operator= as well as set(), operations through null keys and through variants that are neither index nor key (must have no effect), JsonObject::set() from an unbound or wrong-kind source,")
+PROPS["C05"]["rule"] += "; JSON inputs are spelled in the accepted dialect half of the time (unquoted keys, single quotes)"
+PROPS["C09"]["rule"] += "; 1 in 16 cases is a raw byte string (libFuzzer: mutations of extras/fuzzing/msgpack_seed_corpus) judged by the verdict of the reference decoder on those bytes"
+PROPS["C12"]["rule"] += " 1 in 2500 decimal cases has 32755-32785, 65525-65555 or up to 73000 digits (string path). Row num01 (JsonFloat = float): literals only, judged by the float analogue (no NaN, +-inf / +-0 beyond [1e-37,1e38], 1e-5 inside)."
+PROPS["C13"]["rule"] += "; row num01 (JsonFloat = float): stored doubles are the float nearest to the generated value"
+PROPS["C14"]["rule"] += "; 1 in 600 cases is the many-sharers scenario (254-258 or 65534-65538 users of one copied string, one removed / overwritten / re-assigned, the others read back, inspector and ledger checked); every string node is also compared with itself variant-against-variant; writes go through operator= as well as set()"
+PROPS["C15"]["rule"] += "; sweep also holds flat long inputs (20000 blanks / elements / members / characters / comments of both kinds / MessagePack array16 and map16 entries) whose stack use must stay within the depth-L baseline; row dial1111 (comments enabled)"
+PROPS["C16"]["rule"] += "; every stream is read once more through a generated filter (positions after each call must be the same as without: skipped values are consumed like parsed ones); strings whose spelling ends in escaped backslashes or quotes are planted; dialect spellings; bin/ext items incl. empty payloads; std::istream with a chunked streambuf; row dial1111 with comments between and inside documents"
+PROPS["C18"]["rule"] += "; row num01 (JsonFloat = float): mixed comparisons are still made as doubles"
+PROPS["C19"]["rule"] += "; rows where the inline pools exceed what the slot ids address ((1,128,4,1), (1,255,2,1)) and rows combining (1,16,4,1) with USE_DOUBLE=0 / USE_LONG_LONG=0; the string-limit scenario checks that a refused string leaves no block behind"
+PROPS["C20"]["rule"] += "; regression witness cold_start (both builds): a fresh process whose first documents are created by eight concurrently started threads, compared with sequential transcripts made afterwards; every thread program's document carries items with explicit MessagePack length fields (str8/16, bin, ext, array16) and a spelling with \\uXXXX escapes and surrogate pairs"
+PROPS["C06"]["rule"] += "; rows g1_16_4_1_f32 / g1_16_4_1_ll0 (extension slots under USE_DOUBLE=0 / USE_LONG_LONG=0)"
+PROPS["C01"]["rule"] += "; row g2_2_1_4 (one inline pool of two slots: previous content and new text both need a heap pool table); float literals up to the documented 63 characters"
+PROPS["C11"]["rule"] += "; row dial1111: comments inside kept and discarded parts"
